@@ -213,6 +213,49 @@ def names_in(node):
 
 
 # ---------------------------------------------------------------------------------------------
+LOG_METHODS = {'info', 'warn', 'warning', 'debug', 'error', 'benchmark', 'add_msg', 'log_software_env'}
+
+
+def _is_log_call(call):
+    if not isinstance(call, ast.Call):
+        return False
+    f = call.func
+    if isinstance(f, ast.Name):
+        return f.id in ('print', 'print_timing')
+    if isinstance(f, ast.Attribute):
+        if f.attr == 'warn' and isinstance(f.value, ast.Name) and f.value.id == 'warnings':
+            return True
+        if f.attr in LOG_METHODS:
+            base = f.value
+            last = base.id if isinstance(base, ast.Name) else (base.attr if isinstance(base, ast.Attribute) else '')
+            return 'log' in last.lower()
+    return False
+
+
+def _is_plain_test(test):
+    """a test made of names, constants, `is` / `is not` / comparisons and boolean operators only"""
+    for n in ast.walk(test):
+        if isinstance(n, (ast.Call, ast.Subscript, ast.Await, ast.Lambda, ast.NamedExpr)):
+            return False
+    return True
+
+
+def is_log_only(node):
+    """assumption A-LOG: a statement that only prints / logs / reads the clock"""
+    if isinstance(node, ast.Expr):
+        return _is_log_call(node.value)
+    if isinstance(node, ast.Assign) and len(node.targets) == 1 and isinstance(node.targets[0], ast.Name):
+        v = node.value
+        if isinstance(v, ast.Call) and isinstance(v.func, ast.Attribute) and v.func.attr in ('time', 'perf_counter') \
+                and isinstance(v.func.value, ast.Name) and v.func.value.id == 'time' and not v.args:
+            return True
+        return False
+    if isinstance(node, ast.If):
+        return _is_plain_test(node.test) and bool(node.body) and \
+            all(is_log_only(x) for x in node.body) and all(is_log_only(x) for x in node.orelse)
+    return False
+
+
 class Executor:
     def __init__(self, ctx):
         self.ctx = ctx
@@ -336,6 +379,12 @@ class Executor:
                 raise Unsupported(f"statement {type(node).__name__} at line {node.lineno}")
             if isinstance(node, ast.Expr) and isinstance(node.value, ast.Constant):
                 outs = [Outcome('normal', state)]      # docstring / bare constant
+            elif ctx.lenient and isinstance(node, ast.Expr) and _is_log_call(node.value) \
+                    and not self._log_receiver_tracked(node.value):
+                # assumption A-LOG: a print / logging statement is a no-op that does not raise (its
+                # arguments may mention tracked names, e.g. the name of the scratch directory)
+                ctx.abstracted.append(f"L{node.lineno}: logging statement (A-LOG: does not raise)")
+                outs = [Outcome('normal', state)]
             elif ctx.lenient and ctx.contract.tracked and isinstance(
                     node, (ast.Assign, ast.AugAssign, ast.Expr, ast.Delete, ast.AnnAssign, ast.Assert)) \
                     and not self.mentions_tracked(node):
@@ -377,6 +426,14 @@ class Executor:
                 raise
             return self.abstract_stmt(node, state, why=str(e))
 
+    def _log_receiver_tracked(self, call):
+        f = call.func
+        if isinstance(f, ast.Attribute):
+            for n in ast.walk(f.value):
+                if isinstance(n, ast.Name) and n.id in self.ctx.contract.tracked:
+                    return True
+        return False
+
     def mentions_tracked(self, node):
         tr = set(self.ctx.contract.tracked)
         for n in ast.walk(node):
@@ -396,6 +453,15 @@ class Executor:
     def abstract_stmt(self, node, state, why='untracked'):
         """slice mode: the statement touches no tracked state; havoc what it assigns, it may raise"""
         ctx = self.ctx
+        if is_log_only(node):
+            # assumption A-LOG: print / logging / timing statements are no-ops that do not raise
+            ctx.abstracted.append(f"L{node.lineno}: logging / timing statement (A-LOG: does not raise)")
+            assigned, _mut, _args = modified_names([node])
+            for n in assigned:
+                if n in state.env and n not in ctx.contract.tracked:
+                    self.havoc_name(state, n, keep_type=False)
+                    state.asg[n] = z3.BoolVal(True)
+            return [Outcome('normal', state)]
         try:
             src = ast.unparse(node).split('\n')[0][:80]
         except Exception:
